@@ -76,3 +76,35 @@ PROPS["C11"] = {
     "assumptions": ["all neighbours of members are members (premise of the property)", "the hash order of a container instance is not reproducible; replay re-runs 64 instances"],
     "timeout": {"quick": 300, "thorough": 2400},
 }
+
+PROPS["C12"] = {
+    "id": "C12", "cmd": "serde_rt", "level": "exploration",
+    "rule": "every multigraph (as insertion sequence, self-loops and parallel edges) within the node/edge bound and seeded random graphs up to 40 nodes, in each of the four containers, several container instances (hash orders) each, is serialised and deserialised with JSON and CBOR; the result is compared with the original through the observation function (keys, node values, per-node ordered out-list for directed / multiset of incident edges for undirected, degrees, C01/C02 walkers) and a second round trip must be a fixed point; plus Graph<String, Option<i8>, (u8, String)> instances with hostile key strings. distinct = distinct (flavour, format, graph, instance).",
+    "shards": {"quick": 8, "thorough": 16},
+    "args": {"quick": ["--max-n", "3", "--max-e", "3", "--random", "200", "--typed", "400"], "thorough": ["--max-n", "3", "--max-e", "4", "--random", "6000", "--typed", "20000"]},
+    "exhaustive": {"quick": True, "thorough": True},
+    "require": {"any": ["enumerations_completed", "graphs_with_selfloop", "graphs_with_parallel_edges", "random_graphs", "typed_roundtrips", "ungraph.json", "sync_ungraph.cbor", "digraph.cbor", "sync_digraph.json"]},
+    "assumptions": ["node values and edge values serialise faithfully (serde_json / serde_cbor and the payload impls are trusted)"],
+    "timeout": {"quick": 300, "thorough": 2400},
+}
+PROPS["C13"] = {
+    "id": "C13", "cmd": "serde_fuzz", "level": "exploration",
+    "rule": "documents = hand-written synthetic documents, 16 kinds of structural mutation (drop, duplicate, swap, retype to null/string/negative/2^32/float/array/object/bool, nest, retarget to an undeclared key, arity +1/-1, increment) at every position of every valid seed document (all multigraphs on <=2 nodes/<=2 edges plus richer seeds), double mutations on the small seeds, truncation at every byte, seeded random byte/token mutations; JSON and CBOR; four containers. Oracle: no panic, no hang (CPU-time watchdog); Ok(graph) must pass the invariant walk, contain only nodes and edge copies that a lenient parse of the same bytes declares, and must not have been accepted if an edge names an undeclared key. distinct = distinct documents per flavour.",
+    "shards": {"quick": 8, "thorough": 16},
+    "args": {"quick": ["--random", "400000"], "thorough": ["--random", "12000000"]},
+    "exhaustive": {"quick": False, "thorough": False},
+    "require": {"any": ["enumerations_completed", "documents_accepted", "documents_rejected", "accepted_with_edges", "structural_mutations", "truncations", "random_mutations", "synthetic_documents"]},
+    "assumptions": ["'declared by the document' is computed by serde_json::Value / serde_cbor::Value parses of the same bytes"],
+    "timeout": {"quick": 300, "thorough": 2400},
+}
+
+PROPS["C18"] = {
+    "id": "C18", "cmd": "container", "level": "exploration",
+    "rule": "histories over the alphabet {insert of either of two distinct node objects per key, remove, connect / disconnect / isolate on members and non-members, connect / isolate through handles handed out by get / index / to_vec / iter}: every sequence of the stated depth over the stated key count is enumerated, plus seeded random histories of 300 calls on 2..6 keys; after every call len/is_empty/contains/get/index/to_vec/iter/roots/leaves/orphans are compared with a key->node-object map model (identity by payload instance), changes made through handed-out nodes must be visible through the original handles, and the DOT exports of the final graph are parsed line by line against the members, the edges obtained by iterating them and the attributes returned by 27 callback combinations. distinct = distinct (flavour, history).",
+    "shards": {"quick": 8, "thorough": 16},
+    "args": {"quick": ["--keys", "2", "--depth", "3", "--random", "2000"], "thorough": ["--keys", "2", "--depth", "4", "--random", "60000"]},
+    "exhaustive": {"quick": True, "thorough": True},
+    "require": {"any": ["enumerations_completed", "insert_of_other_object_on_present_key", "remove_of_absent_key", "edge_ops_touching_non_members", "changes_through_handed_out_nodes", "dot_exports_with_edges", "dot_attr_exports", "random_histories"]},
+    "assumptions": ["connected node objects have distinct keys (premise of the node properties): only one object per key ever takes part in edge operations", "Display of u32 keys contains no whitespace or '->', so DOT text can be parsed by line"],
+    "timeout": {"quick": 300, "thorough": 2400},
+}
